@@ -743,6 +743,7 @@ type fenceRun struct {
 	live     *liveObs
 	events   int
 	curTok   []string // the definition tokens sent last
+	redefs   int
 }
 
 func mustOK(v t38.Value, err error, what string) {
@@ -846,13 +847,6 @@ func runCase(t failer, c *ev.Collector, cs Case) (info caseInfo) {
 			nat, tr := r.spec.expectWrite(r.fr, id, old, cur, cmd == "fset")
 			if tr.Unsure {
 				info.skipped = true
-				redefs := 0
-				for _, ps := range cs.Steps[:stepNo] {
-					if ps.Op == "redef" && ps.Fence == i {
-						redefs++
-					}
-				}
-				info.labels[fmt.Sprintf("skipped:unsure cmd=%s unchanged=%v phase=%s fence=%d redefs=%d oldspatial=%v hav=%v", cmd, s.Unchanged, s.Phase, i, redefs, old != nil && old.spatial, r.fr.hav)] = true
 				return
 			}
 			if i == 0 {
@@ -1109,6 +1103,7 @@ func runCase(t failer, c *ev.Collector, cs Case) (info caseInfo) {
 				replies = append(replies, v)
 			}
 			info.labels["redef:"+s.Variant] = true
+			r.redefs++
 			if s.Variant == "identical" {
 				for _, v := range replies {
 					if v.Kind != ':' || v.Int != 0 {
@@ -1198,6 +1193,25 @@ func runCase(t failer, c *ev.Collector, cs Case) (info caseInfo) {
 			if g := maxGapNs.Load(); g > startGap && g > int64(2*time.Second) {
 				c.Inconclusive("process stalled %.1fs during %s; webhook stream not judged", float64(g)/1e9, prefix)
 				return true
+			}
+		}
+		if obs == "webhook" && r.redefs > 0 {
+			// a re-defined hook is a new object with a new sender goroutine while
+			// the replaced one may still be inside its delivery routine: across a
+			// re-definition the server does not keep the delivery order (C10's
+			// subject). Accept the same messages in another order.
+			sx := append([]xmsg(nil), exp...)
+			sg := append([]gmsg(nil), got...)
+			sort.SliceStable(sx, func(a, b int) bool { return sx[a].String() < sx[b].String() })
+			sort.SliceStable(sg, func(a, b int) bool {
+				return xmsg{Cmd: sg[a].Cmd, Detect: sg[a].Detect, ID: sg[a].ID, Obj: sg[a].Obj, Fields: sg[a].Fields}.sortKey() < xmsg{Cmd: sg[b].Cmd, Detect: sg[b].Detect, ID: sg[b].ID, Obj: sg[b].Obj, Fields: sg[b].Fields}.sortKey()
+			})
+			sort.SliceStable(sx, func(a, b int) bool { return sx[a].sortKey() < sx[b].sortKey() })
+			if r2 := matchStream(sx, sg); r2.Status == "complete" {
+				info.labels["webhook-reordered-after-re-definition(accepted)"] = true
+				return true
+			} else if r2.Status == "partial" && !final {
+				return false
 			}
 		}
 		key := "fence:" + obs + ":" + res.Kind
